@@ -32,3 +32,15 @@ Theorem C04_monitor_flags_armed_timer_after_error :
      [BReport 4 false; BReport 39 true; BCloseData KUser; BClosedCb false; BSnap 39 true true 0 false]) = [22; 80].
 Proof. exact mon_flags_armed_timer_after_error. Qed.
 Print Assumptions C04_monitor_flags_armed_timer_after_error.
+
+(* the function bin/check evaluates on the implementation's observations (ConnCheck.check_C04:
+   model = implementation?, and the monitor read off the observations themselves - states from
+   the hook snapshots, the stored SHIP id from the id reports) returns no failure code on the
+   model's own observations, for every role, ids and event list: what is demanded of the
+   implementation is exactly what is proved of the model *)
+From Ship Require Import ConnCheck ConnImpl.
+Theorem C04_checker_accepts_every_model_run :
+  forall (r : role) (stored local : bytes) (es : list eventx),
+    check_C04 (model_case r stored local es) = [].
+Proof. intros r s l es. pose proof (checkers_accept_model r s l es) as H. cbv zeta in H. tauto. Qed.
+Print Assumptions C04_checker_accepts_every_model_run.
